@@ -12,11 +12,13 @@ package main
 
 import (
 	"archive/tar"
+	"errors"
 	"fmt"
 	"io"
 	"sort"
 	"strconv"
 	"strings"
+	"syscall"
 	"verifsim/simos"
 
 	"pault.ag/go/debian/deb"
@@ -564,6 +566,50 @@ func runC15(r *rt.Run, tier string) {
 		}
 		simos.Install(nil)
 	}
+	// the same damaged file opened by name again and again in a process whose
+	// descriptor table is small: every LoadFile has the same outcome (a load that
+	// fails must not keep the file open - the table would fill up and the same
+	// bytes would end in "too many open files" instead)
+	if target == "deb" && t.Bool(1, 6, "c15.fdtable") {
+		fsys := simos.New(r)
+		fsys.PutQuiet("/pkgs/y.deb", bad)
+		fsys.MaxOpen = 2 + t.Draw(3, "c15.fdtable.size")
+		simos.Install(fsys)
+		outs := []string{}
+		tk := r.Solo("loads-by-name", func() {
+			for i := 0; i < 3*fsys.MaxOpen; i++ {
+				d, closeFn, err := deb.LoadFile("/pkgs/y.deb")
+				if err != nil {
+					// (which of several damaged columns an error names may depend on the
+					// member order; whether the descriptor table was full may not)
+					if errors.Is(err, syscall.EMFILE) {
+						outs = append(outs, "load error: "+err.Error())
+					} else {
+						outs = append(outs, "load error (not a resource error)")
+					}
+					continue
+				}
+				outs = append(outs, fmt.Sprintf("loaded %s %s", d.Control.Package, d.Control.Version))
+				closeFn()
+			}
+		})
+		simos.Install(nil)
+		if tk.Panic != nil {
+			r.Violate("C15/panic", "LoadFile/repeated", "[%s] panic: %v\n%s", what, tk.Panic, trimStack(tk.PanicStack))
+			return
+		}
+		if tk.Budget {
+			r.Violate("C15/no-termination", "LoadFile/repeated", "[%s] repeated LoadFile did not finish within the step budget", what)
+			return
+		}
+		for i, o := range outs {
+			if o != outs[0] {
+				r.Violate("C15/nondeterministic-outcome", "LoadFile/repeated-with-small-descriptor-table", "[%s] the same file, descriptor table of %d: LoadFile #1 gives %s, LoadFile #%d gives %s", what, fsys.MaxOpen, clip(outs[0], 200), i+1, clip(o, 200))
+				break
+			}
+		}
+		r.Probe("loadfile-repeated-with-small-descriptor-table")
+	}
 	// the .deb loader, several times under different member orders
 	var first debOutcome
 	for i := 0; i < 3; i++ {
@@ -608,5 +654,5 @@ func init() {
 		},
 		Assumptions: []string{"inputs are structured corruptions of valid archives and raw bytes drawn from a header-like alphabet; coverage-guided fuzzing (named in the property's quantifier) is a different technique and is not used", "only stored and gzip members are damaged for deb.Load, as the statement excludes the third-party decoders on hostile streams"},
 	})
-	propProbes["C15"] = []string{"payload-read-after-the-deb-was-dropped-and-garbage-collected", "input-is-a-window-into-a-larger-device", "package-reloaded-after-double-close", "two-archives-iterated-concurrently", "reader-fails-beyond-the-end-with-a-non-EOF-error", "reader-with-sequential-state", "iteration-ended-in-error", "iteration-ended-in-eof", "damaged-package-still-loads"}
+	propProbes["C15"] = []string{"loadfile-repeated-with-small-descriptor-table", "payload-read-after-the-deb-was-dropped-and-garbage-collected", "input-is-a-window-into-a-larger-device", "package-reloaded-after-double-close", "two-archives-iterated-concurrently", "reader-fails-beyond-the-end-with-a-non-EOF-error", "reader-with-sequential-state", "iteration-ended-in-error", "iteration-ended-in-eof", "damaged-package-still-loads"}
 }
